@@ -18,11 +18,13 @@ import (
 	"github.com/scigolib/hdf5/internal/core"
 	"github.com/scigolib/hdf5/internal/structures"
 	"github.com/scigolib/hdf5/internal/writer"
+	hgen "github.com/scigolib/hdf5/verif/gen"
 	"github.com/scigolib/hdf5/verif/hist"
 	"github.com/scigolib/hdf5/verif/indep"
 	"github.com/scigolib/hdf5/verif/memf"
 	"github.com/scigolib/hdf5/verif/obs"
 	"github.com/scigolib/hdf5/verif/vt"
+	"pgregory.net/rapid"
 )
 
 const prop = "C17"
@@ -250,8 +252,13 @@ func runTrunc(c TruncCase) vt.Verdict {
 	if len(intact.Panics) > 0 {
 		return vt.Skipped("intact file already panics the reader (C07's business)")
 	}
+	return truncVerdict(c.File, data, intact, c.Len)
+}
+
+// truncVerdict reads data[:l] through the public API and requires the observation to refine the intact one.
+func truncVerdict(name string, data []byte, intact *obs.File, l int) vt.Verdict {
 	p := filepath.Join(vt.GetEnv().Scratch, fmt.Sprintf("trunc-%d.h5", os.Getpid()))
-	if err := os.WriteFile(p, data[:c.Len], 0o644); err != nil {
+	if err := os.WriteFile(p, data[:l], 0o644); err != nil {
 		return vt.Skipped("cannot write scratch file")
 	}
 	defer os.Remove(p)
@@ -262,18 +269,146 @@ func runTrunc(c TruncCase) vt.Verdict {
 		var v vt.Verdict
 		switch pr.Kind {
 		case "member-missing":
-			v = vt.KnownOr(kfSwallowChild, "%s truncated to %d of %d bytes: %s", c.File, c.Len, len(data), pr)
+			v = vt.KnownOr(kfSwallowChild, "%s truncated to %d of %d bytes: %s", name, l, len(data), pr)
 		case "attr-missing":
-			v = vt.KnownOr(kfSwallowAttr, "%s truncated to %d of %d bytes: %s", c.File, c.Len, len(data), pr)
+			v = vt.KnownOr(kfSwallowAttr, "%s truncated to %d of %d bytes: %s", name, l, len(data), pr)
 		case "panic":
-			v = vt.KnownOr("KF-C17-03", "%s truncated to %d of %d bytes: %s", c.File, c.Len, len(data), pr)
+			v = vt.KnownOr("KF-C17-03", "%s truncated to %d of %d bytes: %s", name, l, len(data), pr)
 		default:
-			return vt.Bad("%s truncated to %d of %d bytes: %s", c.File, c.Len, len(data), pr)
+			return vt.Bad("%s truncated to %d of %d bytes: %s", name, l, len(data), pr)
 		}
 		if v.Kind == vt.Violation {
 			return v
 		}
 		known = &v
+	}
+	if known != nil {
+		return *known
+	}
+	return vt.Pass()
+}
+
+// cutMarks lists the offsets worth cutting at: structure and header-message boundaries, every third byte inside small
+// structures (callers widen each mark by +-1), the first 64 and last 16 bytes of larger ones.
+func cutMarks(data []byte) []uint64 {
+	f, _ := indep.Decode(data, indep.TolerateAll())
+	if f == nil {
+		return nil
+	}
+	marks := append([]uint64{}, f.Marks...)
+	for _, ex := range f.Extents {
+		marks = append(marks, ex.Start, ex.End)
+		if n := ex.End - ex.Start; n <= 256 {
+			for x := ex.Start + 2; x+1 < ex.End; x += 3 {
+				marks = append(marks, x)
+			}
+		} else {
+			for x := ex.Start + 2; x < ex.Start+64; x += 3 {
+				marks = append(marks, x)
+			}
+			for x := ex.End - 15; x+1 < ex.End; x += 3 {
+				marks = append(marks, x)
+			}
+		}
+	}
+	sort.Slice(marks, func(i, j int) bool { return marks[i] < marks[j] })
+	return marks
+}
+
+// ---- (a2) truncation of generated files ------------------------------------------------------------------------------
+
+type Cut struct {
+	Mark  int `json:"mark"`  // >= 0: index into the file's cut marks (mod their number); -1: use Frac
+	Delta int `json:"delta"` // -1, 0, +1 around the mark
+	Frac  int `json:"frac"`  // per-65536 position in the file
+}
+
+type GenTruncCase struct {
+	SB   int       `json:"sb"`
+	Ops  []hist.Op `json:"ops"`
+	Cuts []Cut     `json:"cuts"`
+}
+
+func genGenTrunc(t *rapid.T) GenTruncCase {
+	sb, ops := hgen.Mixed(t, vt.N(40, 60))
+	c := GenTruncCase{SB: sb, Ops: ops}
+	c.Cuts = rapid.SliceOfN(rapid.Custom(func(t *rapid.T) Cut {
+		if rapid.IntRange(0, 3).Draw(t, "byFrac") == 0 {
+			return Cut{Mark: -1, Frac: rapid.IntRange(0, 65535).Draw(t, "frac")}
+		}
+		return Cut{Mark: rapid.IntRange(0, 1<<20).Draw(t, "mark"), Delta: rapid.IntRange(-1, 1).Draw(t, "delta")}
+	}), 8, 24).Draw(t, "cuts")
+	return c
+}
+
+func classifyGenTrunc(c GenTruncCase) (bool, []string) {
+	kinds := map[string]bool{}
+	attrs := map[string]map[string]bool{}
+	for _, op := range c.Ops {
+		kinds[op.K] = true
+		if op.K == "attr" {
+			if attrs[op.Path] == nil {
+				attrs[op.Path] = map[string]bool{}
+			}
+			attrs[op.Path][op.Name] = true
+		}
+	}
+	var ls []string
+	for _, m := range attrs {
+		if len(m) > 8 {
+			ls = append(ls, "dense_attributes")
+			break
+		}
+	}
+	for _, k := range []string{"group", "attr", "hard", "soft", "densegroup", "resize"} {
+		if kinds[k] {
+			ls = append(ls, "has_"+k)
+		}
+	}
+	return len(c.Ops) >= 2, ls
+}
+
+func runGenTrunc(c GenTruncCase) vt.Verdict {
+	e := vt.GetEnv()
+	p := filepath.Join(e.Scratch, fmt.Sprintf("gentrunc-%d.h5", os.Getpid()))
+	defer os.Remove(p)
+	ex, err := hist.NewExec(p, c.SB)
+	if err != nil {
+		return vt.Skipped("cannot create file")
+	}
+	for _, op := range c.Ops {
+		ex.Apply(op)
+	}
+	if err := ex.Close(); err != nil {
+		return vt.Skipped("close failed (C16 / C05 decide what that means)")
+	}
+	data, err := os.ReadFile(p)
+	if err != nil || len(data) < 16 {
+		return vt.Skipped("no file")
+	}
+	intact := obs.Read(p, obs.Options{Slices: true})
+	if intact.OpenErr != "" || len(intact.Panics) > 0 {
+		return vt.Skipped("the intact file is not readable (other properties' business)")
+	}
+	marks := cutMarks(data)
+	var known *vt.Verdict
+	done := map[int]bool{}
+	for _, cut := range c.Cuts {
+		l := int(int64(cut.Frac) * int64(len(data)) >> 16)
+		if cut.Mark >= 0 && len(marks) > 0 {
+			l = int(marks[cut.Mark%len(marks)]) + cut.Delta
+		}
+		if l < 0 || l >= len(data) || done[l] {
+			continue
+		}
+		done[l] = true
+		v := truncVerdict("generated file", data, intact, l)
+		switch v.Kind {
+		case vt.Violation:
+			return v
+		case vt.Known:
+			known = &v
+		}
 	}
 	if known != nil {
 		return *known
@@ -330,26 +465,9 @@ func truncBody(t *testing.T) {
 				lens[l] = true
 			}
 		} else {
-			if f, _ := indep.Decode(b.Data, indep.TolerateAll()); f != nil {
-				marks := append([]uint64{}, f.Marks...)
-				for _, ex := range f.Extents {
-					marks = append(marks, ex.Start, ex.End)
-					// every cut inside a small structure (headers, nodes); the first 64 and last 16 bytes of larger ones
-					if n := ex.End - ex.Start; n <= 256 {
-						for x := ex.Start + 2; x+1 < ex.End; x += 3 { // marks are widened by +-1 below
-							marks = append(marks, x)
-						}
-					} else {
-						for x := ex.Start + 2; x < ex.Start+64; x += 3 {
-							marks = append(marks, x)
-						}
-						for x := ex.End - 15; x+1 < ex.End; x += 3 {
-							marks = append(marks, x)
-						}
-					}
-				}
-				sort.Slice(marks, func(i, j int) bool { return marks[i] < marks[j] })
-				// all structure and message boundaries, +-1; thinned deterministically only when there are very many
+			{
+				marks := cutMarks(b.Data)
+				// thinned deterministically only when there are very many
 				step := len(marks)/vt.N(1500, 20000) + 1
 				for i := int(vt.ShardSeed("trunc-marks-"+b.Name) % uint64(step)); i < len(marks); i += step {
 					for d := -1; d <= 1; d++ {
@@ -809,6 +927,7 @@ func writeFaultBody(t *testing.T) {
 func TestProp(t *testing.T) {
 	vt.Run(t, prop,
 		vt.Func[TruncCase]{Name: "truncate", Body: truncBody, One: runTrunc},
+		vt.Sub[GenTruncCase]{Prop: prop, Name: "truncate-generated", Gen: genGenTrunc, Run: runGenTrunc, Classify: classifyGenTrunc}.WithBudget(1500, 20000),
 		vt.Func[ReadFaultCase]{Name: "readfault", Body: readFaultBody, One: runReadFault},
 		vt.Func[WriteFaultCase]{Name: "writefault", Body: writeFaultBody, One: runWriteFault},
 	)
